@@ -727,6 +727,64 @@ theorem passes_spec (hasMask : Bool) (k : Kind) :
 theorem stationKinds_spec : stationKinds false = [.signal, .max] ∧ stationKinds true = [.signal, .max, .mask] := by
   constructor <;> decide
 
+/-- **the station's own listeners are always attached.**  Whatever the caller's listeners are — of other stations, of other
+classes, or attached to the SAME station and of the same class as one of the station's own listeners (an elevation
+threshold `StationSignalListener(station, elev=…)`, the whole `stations_listeners(station)` set) — with a truthy `events`
+the list handed to `orb.iter` ends with the station's own horizon (elevation 0) AOS/LOS listener, its MAX listener and,
+with a mask, its mask listener, at the positions right after the caller's. -/
+theorem visibility_own_listeners_attached (user : List Spec) (sta : Chan) (hasMask : Bool) :
+    (visListeners user sta hasMask true)[user.length]? = some (.signal, some sta) ∧
+    (visListeners user sta hasMask true)[user.length + 1]? = some (.max, some sta) ∧
+    (hasMask = true → (visListeners user sta hasMask true)[user.length + 2]? = some (.mask, some sta)) ∧
+    (visListeners user sta hasMask true).length = user.length + (if hasMask then 3 else 2) := by
+  have hk := stationKinds_spec
+  cases hasMask <;> simp [visListeners, hk.1, hk.2]
+
+/-- **the horizon crossings are complete, whatever else is listened to.**  With a truthy `events`, whenever the elevation
+(minus the station listener's own threshold, 0 for the station's own listener) has different signs at two consecutive
+samples, the visibility stream over these samples holds an event carrying the station's OWN AOS/LOS listener (index
+`user.length`), dated where `_bisect` puts the zero of the elevation — for any list of additional listeners of the
+caller, including listeners attached to the same station that watch another threshold.  (Hypothesis `hex`: no result is
+the sample object itself — samples 1 µs apart excepted, see `lastAt`.) -/
+theorem visibility_horizon_complete (own : Chan) (user : List Spec) (sta : Chan) (hasMask : Bool)
+    (st : List (Option Int)) (hst : st.length = (visListeners user sta hasMask true).length) (p t : Int)
+    (hs : Int.sign (sta.phi t - sta.elev) ≠ Int.sign (sta.phi p - sta.elev))
+    (hex : ∀ e ∈ rawEventsU ((visListeners user sta hasMask true).map (Spec.lst own)) 0 (some p) t, e.t ≠ t) :
+    ∃ it ∈ visibility own user sta hasMask true st [p, t], ∃ lab,
+      it.ev = some (user.length, lab) ∧ it.t = bisect (fun x => sta.phi x - sta.elev) p t := by
+  obtain ⟨h0, -, -, -⟩ := visibility_own_listeners_attached user sta hasMask
+  set all := visListeners user sta hasMask true with hall
+  set ls := all.map (Spec.lst own) with hls
+  have hf : (mkLst .signal sta).f = fun x => sta.phi x - sta.elev := by
+    funext x; simp [mkLst, assemble, viaF, Generated.ListenSrc.signalF]
+  have hl : ls[user.length]? = some (mkLst .signal sta) := by
+    simp [hls, List.getElem?_map, h0, Spec.lst, Spec.chan]
+  have hg : (mkLst .signal sta).guard p t = true := (guards_spec sta p t).2.2.2.2.2.2.1
+  obtain ⟨e, he, hidx⟩ := (event_iff_sign_change ls p t user.length).2 ⟨_, hl, hg, by rw [hf]; exact hs⟩
+  obtain ⟨l, hl', -, -, het, -⟩ := raw_event_spec he
+  rw [hidx, hl] at hl'
+  cases hl'
+  refine ⟨⟨e.t, some (e.idx, e.label)⟩, ?_, e.label, by simp [hidx], by simp [het, hf]⟩
+  have hstream : iterS own all st [p, t] = ⟨p, none⟩ :: (listenU ls (some p) t ++ []) := by
+    rw [iterS, reuse_clean _ _ (by simpa [hls] using hst), stream_eq_blocks]
+    simp [blocks, hls]
+  simp only [visibility]
+  rw [← hall, hstream, listen_exact ls (some p) t hex]
+  refine List.mem_filter.2 ⟨?_, ?_⟩
+  · refine List.mem_cons_of_mem _ ?_
+    simp only [List.append_nil, List.mem_append, List.mem_map]
+    left
+    exact ⟨e, (perm_sortDir _ _).mem_iff.2 he, rfl⟩
+  · simp [hidx, h0, (passes_spec hasMask .signal).1]
+
+/-- an additional 100-unit elevation-threshold listener on the same station: the horizon AOS (listener 1, the station's
+own) and the threshold AOS (listener 0, the caller's) are both in the stream -/
+example : (visibility ⟨fun _ => 0, fun _ => 0, fun _ => 0, fun _ => 0, 0⟩
+    [(.signal, some ⟨fun t => t - 500, fun _ => 1, fun _ => 0, fun _ => 0, 100⟩)]
+    ⟨fun t => t - 500, fun _ => 1, fun _ => 0, fun _ => 0, 0⟩ false true [none, none, none] [0, 1000]) =
+      [⟨500, some (1, "AOS")⟩, ⟨600, some (0, "AOS")⟩, ⟨1000, none⟩] := by decide +kernel
+
+
 example : (visibility ⟨fun _ => 0, fun _ => 0, fun _ => 0, fun _ => 0, 0⟩
     [(.node, some ⟨fun t => t - 500, fun _ => 1, fun _ => 0, fun _ => 0, 0⟩)]
     ⟨fun _ => -1, fun _ => 0, fun _ => 0, fun _ => 0, 0⟩ false true [none, none, none] [0, 1000]) = [] := by decide +kernel
